@@ -11,9 +11,11 @@ Strategies (Hypothesis, construction not rejection)
             validate_alignment=None|bool (None = drawn), allow=() opt-in classes (see OPT_IN),
             skeleton=False (True: at least the 5-file tree root->{a,b}, a->c, b->d), rich=False
             (True: more definitions per file), min_messages=1
-    layout_programs(**kw)     -> Program   C11 profile: free field sequences (NOT aligned by construction),
+    layout_programs(**kw)     -> Program   C11 profile: free field sequences (NOT aligned by construction; some
+            padded by the "user" completely or with one pad forgotten; sizes next to 65535), 1-2 files,
             import_coredefs False, validate_alignment True, auto_pad drawn; ``program.expect`` says what
-            the compiler must do: {"outcome": "ok"|"AlignmentError"|"InvalidMessageSize", "at": name|None}
+            the compiler must do: {"outcome": "ok"|"AlignmentError"|"InvalidMessageSize", "at": name|None};
+            the closure ends at the first definition that must be rejected
     conflict_programs(**kw)   -> Program   well-formed base + EXACTLY ONE injected conflict
             (``program.conflict`` = {"kind","placement","swap","files","names","expected":[exception class names], ...})
 Plain builders (same code, usable without Hypothesis: pass a Chooser)
@@ -57,6 +59,14 @@ Layout model (independent of the parser)
     emitted_fields(program, name) -> [(name, type_name, length|None)] the field list the compiler must emit
           under auto_pad (user fields + ``padding_<n>_`` char fields exactly where natural layout has gaps)
     type_size_align(program, type_name) -> (size, align) natural
+Drivers (the only functions that touch pyrtma; lazy imports)
+    quiet()                   silence parser logging / compile() prints / rich hook; replaces the NAME
+                              pyrtma.compilers.python.subprocess by a no-op shim (black); call once per process
+    parse_program(program, dirpath=None, keep=False) -> ParseOutcome(outcome "ok"|exception class name, parser, exc, root)
+                              writes the closure (fresh /dev/shm scratch dir unless dirpath) and runs Parser(**options).parse
+    scratch_dir(prefix)       fresh scratch directory (caller removes it)
+    ShrinkBudget(seconds)     sb.wrap(strategy) / sb.body(fn): caps Hypothesis' minimisation effort after the first Violation
+                              (generation of a closure costs ~10 ms, an unbounded shrink phase takes minutes)
 Constants
     NATIVES {name: size} (the 26 names common to all back ends), NATIVE_KIND {name: "char"|"int"|"uint"|"float"},
     LENGTHS, RESERVED_FIELD_NAMES, OPT_IN, core_defs() (names/ids of the shipped core definitions, read from the YAML)
@@ -192,10 +202,35 @@ class HypChooser(Chooser):
         self._draw = draw
         self._st = st
 
+    _cache: Dict[int, Any] = {}
+
+    def _small(self, n: int) -> int:
+        s = self._cache.get(n)
+        if s is None:
+            s = self._cache[n] = self._st.sampled_from(range(n))
+        return self._draw(s)
+
     def integer(self, lo, hi):
+        """Uniform on lo..hi, shrinking towards lo.  Hypothesis' own integer draws are size-biased towards small
+        magnitudes (measured with 6.168: integers(0, 19) < 10 in 68% of the draws, sampled_from(range(1000)) < 300 in
+        51%), which starves every low-probability generator class; draws over at most 16 values are uniform, so
+        larger ranges are composed from base-16 digits."""
         if lo == hi:
             return lo
-        return self._draw(self._st.integers(lo, hi))
+        n = hi - lo + 1
+        if n <= 16:
+            return lo + self._small(n)
+        k, cap = 1, 16
+        while cap < n:
+            k, cap = k + 1, cap * 16
+        v = 0
+        for _ in range(3):
+            v = 0
+            for _d in range(k):
+                v = v * 16 + self._small(16)
+            if v < cap - cap % n:
+                break
+        return lo + v % n
 
 
 class FirstChooser(Chooser):
@@ -391,14 +426,16 @@ class Program:
         return {
             "root": self.root, "options": self.options, "shape": self.shape, "classes": sorted(self.classes),
             "wellformed": self.wellformed, "conflict": self.conflict, "expect": self.expect, "edited": self.edited,
-            "relocated": self.relocated, "files": dict(self.files), "specs": [asdict(s) for s in self.specs],
+            "relocated": self.relocated, "noise": self.noise, "files": dict(self.files), "specs": [asdict(s) for s in self.specs],
         }
 
     @classmethod
     def from_json(cls, d: dict) -> "Program":
-        return cls([_spec_from_json(s) for s in d["specs"]], d["root"], d["options"], d.get("shape", "single"),
-                   set(d.get("classes", ())), d.get("wellformed", True), d.get("conflict"), d.get("expect"),
-                   files=dict(d["files"]) if d.get("files") else None, edited=d.get("edited"), relocated=d.get("relocated"))
+        p = cls([_spec_from_json(s) for s in d["specs"]], d["root"], d["options"], d.get("shape", "single"),
+                set(d.get("classes", ())), d.get("wellformed", True), d.get("conflict"), d.get("expect"),
+                files=dict(d["files"]) if d.get("files") else None, edited=d.get("edited"), relocated=d.get("relocated"))
+        p.noise = d.get("noise")
+        return p
 
     def clone(self) -> "Program":
         return Program(copy.deepcopy(self.specs), self.root, self.options, self.shape, set(self.classes), self.wellformed,
@@ -1420,7 +1457,7 @@ def build_program(ch: Chooser, max_files: int = 6, min_files: int = 1, import_co
         max_files = max(max_files, 5)
     n = ch.integer(min_files, max_files)
     if shape is None:
-        shape = ch.weighted([("tree", 3), ("chain", 2), ("diamond", 3), ("dag", 3), ("repeat", 2), ("respell", 2), ("cycle", 2)])
+        shape = ch.weighted([("tree", 3), ("chain", 2), ("diamond", 3), ("dag", 3), ("repeat", 2), ("respell", 2), ("cycle", 3)])
     if n == 1:
         gshape = "single"
     else:
@@ -1507,6 +1544,8 @@ def random_program(seed, **kw) -> Program:
 
 def programs(**kw):
     from hypothesis import strategies as st
+
+    core_defs()  # load once outside the strategy (its imports touch the global random state)
 
     @st.composite
     def _programs(draw):
@@ -1600,7 +1639,7 @@ def build_layout_program(ch: Chooser, auto_pad: Optional[bool] = None, import_co
     arrays, reuse; NOT aligned by construction.  ``program.expect`` = {"outcome", "at"}: the first definition (in
     processing order) the compiler must reject and with which exception, or outcome "ok".  The program ends at
     that definition."""
-    opts = {"auto_pad": ch.chance(0.5) if auto_pad is None else auto_pad, "validate_alignment": True,
+    opts = {"auto_pad": ch.choice([True, False]) if auto_pad is None else auto_pad, "validate_alignment": True,
             "import_coredefs": import_coredefs}
     boundary = ch.chance(0.15) if boundary is None else boundary
     two = ch.chance(0.3)
@@ -1652,8 +1691,8 @@ def build_layout_program(ch: Chooser, auto_pad: Optional[bool] = None, import_co
                 target = ch.choice([65535, 65536, 65534, 65537, 65528, 65532, 65529, 65540]) if boundary and ch.chance(0.6) else None
                 off, maxal = 0, 1
                 # "tidy": the user pads explicitly, so that nothing needs to be added (the accepted side of auto_pad off)
-                tidy = ch.chance(0.3 if opts["auto_pad"] else 0.6)
-                sloppy = tidy and ch.chance(0.15)  # ... but forgets one of the pads
+                tidy = ch.chance(0.3 if opts["auto_pad"] else 0.85)
+                sloppy = tidy and ch.chance(0.12)  # ... but forgets one of the pads
                 for k in range(nf):
                     cat = ch.weighted([("native", 8), ("alias", 2 if an_size and any(a in an_size for a in aliases_all(specs)) else 0),
                                        ("rec", 5 if recs else 0)])
@@ -1749,6 +1788,8 @@ def aliases_all(specs: List[FileSpec]) -> List[str]:
 
 def layout_programs(**kw):
     from hypothesis import strategies as st
+
+    core_defs()  # load once outside the strategy (its imports touch the global random state)
 
     @st.composite
     def _lp(draw):
@@ -2054,6 +2095,7 @@ def conflict_programs(kinds: Optional[Sequence[str]] = None, placements: Optiona
     from hypothesis import strategies as st
 
     kw.setdefault("skeleton", True)
+    core_defs()
 
     @st.composite
     def _cp(draw):
